@@ -1,0 +1,51 @@
+//go:build verif
+
+// Contracts for the deductive verifier in /verif (comment-only; compiled only with -tags verif).
+package network
+
+//@ pred wfBC(c *BlockCache) = c != nil && forall(i, 0, len(c.cache), c.cache[i] != nil && c.cache[i].Blocks != nil) && forall(i, 0, len(c.cache), forall(j, 0, len(c.cache), i < j ==> c.cache[i].Height < c.cache[j].Height))
+
+//@ func (*BlockCache).Clear
+//@   props C20 C15
+//@   requires wfBC(c) && !held(c.lock)
+//@   ensures wfBC(c)
+//@   ensures forall(i, 0, len(c.cache), c.cache[i].Height > height)
+//@   ensures forall(i, 0, old(len(c.cache)), old(c.cache[i].Height) > height ==> exists(j, 0, len(c.cache), c.cache[j] == old(c.cache[i])))
+//@   invariant @loop 0: index == $k - 1 && 0 <= $k && $k <= len(c.cache) && forall(i, 0, $k, c.cache[i].Height <= height)
+//@   nopanic
+
+//@ func (*BlockCache).Add
+//@   props C20 C15
+//@   requires wfBC(c) && !held(c.lock) && block != nil && block.Header != nil
+//@   ensures wfBC(c)
+//@   ensures old(len(c.cache)) < 10240 ==> exists(j, 0, len(c.cache), c.cache[j].Height == block.Height() && has(c.cache[j].Blocks, block.Hash()))
+//@   ensures old(len(c.cache)) < 10240 ==> forall(i, 0, old(len(c.cache)), exists(j, 0, len(c.cache), c.cache[j].Height == old(c.cache[i].Height)))
+//@   ensures len(c.cache) <= old(len(c.cache)) + 1
+//@   invariant @loop 0: 0 <= i && i <= len(c.cache) && forall(k, 0, i, c.cache[k].Height < height)
+//@   nopanic
+
+//@ func (*BlockCache).FirstHeight
+//@   props C20
+//@   requires wfBC(c) && !held(c.lock)
+//@   ensures len(c.cache) == 0 ==> result == 0
+//@   ensures len(c.cache) > 0 ==> result == c.cache[0].Height && forall(i, 0, len(c.cache), result <= c.cache[i].Height)
+//@   nopanic
+
+//@ func (*BlockCache).IsExit
+//@   props C20
+//@   requires wfBC(c) && !held(c.lock)
+//@   ensures result <==> exists(i, 0, len(c.cache), c.cache[i].Height == height && has(c.cache[i].Blocks, hash))
+//@   invariant @loop 0: 0 <= $k && $k <= len(c.cache) && forall(i, 0, $k, c.cache[i].Height != height)
+//@   nopanic
+
+//@ func (*ConfirmCache).Clear
+//@   props C20 C15
+//@   requires c != nil && !held(c.lock)
+//@   nopanic
+
+//@ func (*ConfirmCache).Push
+//@   props C20 C15
+//@   requires c != nil && c.cache != nil && data != nil && !held(c.lock)
+//@   requires forall(h, 0, 4294967296, has(c.cache, uint32(h)) ==> c.cache[uint32(h)] != nil)
+//@   ensures len(old(c.cache)) < 10240 ==> has(c.cache, data.Height) && has(c.cache[data.Height], data.Hash)
+//@   nopanic
